@@ -205,6 +205,90 @@ theorem obtainQuantity_legacy_unit {db : Db} {l c : Sym} {r : UnitRow} (h : db.A
   obtain ⟨_, _, _, e, _⟩ := Db.newQuantity_ok_inv hq h.notLegacy
   exact e
 
+/-! ### the composing-mapping forms of `ObtainQuantity` are unit-string entry points too -/
+
+/-- **`ObtainQuantity({category: (legacy, 1)})` = `ObtainQuantity({category: (current, 1)})`
+= `ObtainQuantity(current, category)`** for every mapping class (ordered dict or not) and every
+category, rejected ones included: a one-entry mapping of exponent 1 never reaches the
+`CheckQuantityTypeUnit` loop (which knows no legacy spellings) -/
+theorem obtainQuantity_legacy_mapping {db : Db} {l c : Sym} {r : UnitRow} (h : db.Alias l c r)
+    (ordered : Bool) (cat : Sym) :
+    db.obtainFromMapping ordered [⟨cat, l, 1⟩] = db.obtainFromMapping ordered [⟨cat, c, 1⟩]
+    ∧ db.obtainFromMapping ordered [⟨cat, c, 1⟩] =
+        (match db.obtainQuantity c (some cat) with
+         | .ok q => .ok (.simple q)
+         | .error e => .error e) := by
+  simp only [Db.obtainFromMapping, simpleCell, BEq.rfl, ↓reduceIte, obtainQuantity_legacy_cat h cat]
+  exact ⟨trivial, rfl⟩
+
+/-- a legacy spelling in a one-entry mapping is accepted wherever the current one is, and the
+quantity is the simple quantity `(category, current)` -/
+theorem obtainQuantity_legacy_mapping_ok {db : Db} {l c : Sym} {r : UnitRow} (h : db.Alias l c r)
+    (ordered : Bool) (cat : Sym) {o : Obtained}
+    (ho : db.obtainFromMapping ordered [⟨cat, c, 1⟩] = .ok o) :
+    db.obtainFromMapping ordered [⟨cat, l, 1⟩] = .ok o ∧ o = .simple ⟨cat, c⟩ := by
+  refine ⟨by rw [(obtainQuantity_legacy_mapping h ordered cat).1]; exact ho, ?_⟩
+  rw [(obtainQuantity_legacy_mapping h ordered cat).2] at ho
+  cases hq : db.obtainQuantity c (some cat) with
+  | error e => rw [hq] at ho; cases ho
+  | ok q =>
+    rw [hq] at ho
+    rw [← obtainQuantity_legacy_cat h cat] at hq
+    rw [obtainQuantity_legacy_unit h cat hq] at ho
+    cases ho; rfl
+
+/-- **the parallel-lists form `ObtainQuantity([(legacy, 1)], category)`** equals the one with the
+current spelling when the category argument is a list/tuple (any length, the empty one included) or a
+string -/
+theorem obtainFromLists_legacy {db : Db} {l c : Sym} {r : UnitRow} (h : db.Alias l c r)
+    (cat : CatArg) (hc : cat ≠ .none) :
+    db.obtainFromLists [(l, 1)] cat = db.obtainFromLists [(c, 1)] cat := by
+  cases cat with
+  | none => exact absurd rfl hc
+  | str d => simp only [Db.obtainFromLists, simplePair, BEq.rfl, ↓reduceIte, obtainQuantity_legacy_cat h d]
+  | list cs =>
+    cases cs with
+    | nil => rfl
+    | cons d ds =>
+      simp only [Db.obtainFromLists, simplePair, BEq.rfl, ↓reduceIte, obtainQuantity_legacy_cat h d]
+
+/-- … and without a category (`ObtainQuantity([(legacy, 1)])`) whenever the current spelling is
+accepted -/
+theorem obtainFromLists_legacy_nocat_ok {db : Db} {l c : Sym} {r : UnitRow} (h : db.Alias l c r)
+    {o : Obtained} (ho : db.obtainFromLists [(c, 1)] .none = .ok o) :
+    db.obtainFromLists [(l, 1)] .none = .ok o := by
+  simp only [Db.obtainFromLists, simplePair, BEq.rfl, ↓reduceIte] at ho ⊢
+  cases hq : db.obtainQuantity c none with
+  | error e => rw [hq] at ho; cases ho
+  | ok q => rw [hq] at ho; rw [obtainQuantity_legacy_ok h none hq]; exact ho
+
+/-- the parallel-lists form with one pair of exponent 1 and a category list IS the dict form -/
+theorem obtainFromLists_single_eq_mapping (db : Db) (u cat : Sym) (cs : List Sym) :
+    db.obtainFromLists [(u, 1)] (.list (cat :: cs)) = db.obtainFromMapping true [⟨cat, u, 1⟩] := by
+  simp only [Db.obtainFromLists, simplePair, Db.obtainFromMapping, simpleCell, BEq.rfl, ↓reduceIte]
+
+/-- **what the library does with a legacy spelling in a really composing mapping** (several entries,
+or an exponent other than 1): it is rejected with a units error, whatever the other cells are —
+`CheckQuantityTypeUnit` runs with `fix_legacy=False` — so there a legacy spelling is not an alias (the
+current spelling gives a derived quantity); the alias property is claimed for the one-entry form only -/
+theorem obtainFromMapping_rejects_legacy {db : Db} {l c : Sym} {r : UnitRow} (h : db.Alias l c r)
+    (ordered : Bool) (cells : List MapCell) (hs : simpleCell cells = none)
+    (hm : ∃ x ∈ cells, x.unit = l) :
+    db.obtainFromMapping ordered cells = .error .units := by
+  unfold Db.obtainFromMapping
+  rw [hs]
+  obtain ⟨x, hx, hl⟩ := hm
+  rw [Db.checkCells_of_not_symbol cells ⟨x, hx, hl ▸ h.notSym⟩]
+
+/-- a composing mapping of current symbols that passes the validation is returned as given (ordered
+dict) -/
+theorem obtainFromMapping_derived {db : Db} (cells : List MapCell) (hs : simpleCell cells = none)
+    {o : Obtained} (ho : db.obtainFromMapping true cells = .ok o) : o = .derived cells := by
+  simp only [Db.obtainFromMapping, hs] at ho
+  cases hc : db.checkCells cells with
+  | error e => rw [hc] at ho; cases ho
+  | ok _ => rw [hc] at ho; simp only [↓reduceIte] at ho; cases ho; rfl
+
 /-- `Scalar/Array/FractionScalar(value, legacy[, category])` equals the object built with the
 current spelling (any value type: number, list of any length, fraction) -/
 theorem create_legacy {α : Type} {db : Db} {l c : Sym} {r : UnitRow} (h : db.Alias l c r)
